@@ -583,6 +583,16 @@ def grid(ctx):
                             cases.append(dict(variant=variant, family=fam, N=64 + 16 * ((n + len(fam)) % 5), sigseed=ctx.seed * 7 + n % 3,
                                               nensembles=nens, nprocesses=nproc, noise_mode=mode, level=level,
                                               max_imfs=2 + (n % 2), npseed=(ctx.seed * 100003 + n) % (2 ** 31)))
+    if q:
+        # the quick grid stops at 4 x 4; a few points beyond it where the pool hands ONE worker SEVERAL members in one chunk
+        # (nensembles > 4 * nprocesses), which is where state carried from one member to the next inside a worker shows
+        for variant in ('ensemble_sift', 'complete_ensemble_sift'):
+            for nens, nproc in ((5, 1), (6, 1), (8, 1), (7, 3), (8, 2)):
+                for mode in ('single', 'flip'):
+                    n += 1
+                    cases.append(dict(variant=variant, family=fams[n % 2], N=64 + 16 * (n % 5), sigseed=ctx.seed * 7 + n % 3,
+                                      nensembles=nens, nprocesses=nproc, noise_mode=mode, level=1 + n % 2,
+                                      max_imfs=2 + (n % 2), npseed=(ctx.seed * 100003 + n) % (2 ** 31)))
     return cases
 
 
@@ -615,7 +625,7 @@ def toy_cases(ctx):
 
 
 def run(ctx):
-    ctx.rule = ('real numerics: nensembles 1..%d x nprocesses 1..%d x {single, flip} x noise amplitude {0, 0.05, 1.0} x std, signals tones / random walk '
+    ctx.rule = ('real numerics: nensembles 1..%d x nprocesses 1..%d (quick tier: plus (5,1) (6,1) (8,1) (7,3) (8,2)) x {single, flip} x noise amplitude {0, 0.05, 1.0} x std, signals tones / random walk '
                 '/ AM-FM + noise of 64..128 samples, max_imfs 2..3, for ensemble_sift and complete_ensemble_sift; '
                 'per run the traced noise of every (member, sign) must be pairwise distinct across members (amplitude != 0), the result must be the '
                 'mean of the member decompositions recomputed from the traced inputs (flip: mean of +/-), zero amplitude must equal the classic sift.  '
